@@ -15,7 +15,7 @@ and `YIN_NS_URI` are regenerated from the source; `XmlEsc`, `YangStr` as before)
 passes `is_yangutf8char` — what `yin_validate_value` demands of an attribute argument.
 -/
 namespace LyModel.Props.C10Yin
-open LyModel LyModel.Yin LyModel.Utf8 LyModel.Generated LyModel.XmlText
+open LyModel LyModel.Yin LyModel.Utf8 LyModel.Generated LyModel.XmlText LyModel.XmlLex
 
 /-! ## the two per-keyword tables of the C source agree -/
 
